@@ -1,5 +1,6 @@
 //! Calls into the real codec, with every outcome (Ok / Err / panic / spin) turned into data.
 
+use std::future::Future as _;
 use std::mem::MaybeUninit;
 use std::sync::Arc;
 
@@ -111,9 +112,18 @@ pub fn encode_len<F: Fam>(p: &F::Packet) -> J {
 
 /// async encoder against a scripted sink
 pub fn enc_async<F: Fam>(p: &F::Packet, script: Vec<WStep>, default: WStep, fail_at: Option<(usize, WStep)>) -> J {
+    enc_async_on::<F>(p, script, default, fail_at, false, None)
+}
+
+/// the same against a sink that may take vectored writes and whose flush fails (with another kind) once the
+/// injected write fault has been answered
+pub fn enc_async_on<F: Fam>(p: &F::Packet, script: Vec<WStep>, default: WStep, fail_at: Option<(usize, WStep)>,
+                            vectored: bool, flush_kind: Option<std::io::ErrorKind>) -> J {
     let r = guarded(|| {
         let mut w = ScriptedWriter::new(script, default);
         w.fail_at = fail_at;
+        w.vectored = vectored;
+        w.flush_kind_after_fault = flush_kind;
         let (o, polls) = drive(F::encode_async(p, &mut w), MAX_POLLS);
         (o, polls, w)
     });
@@ -133,6 +143,50 @@ pub fn enc_async<F: Fam>(p: &F::Packet, script: Vec<WStep>, default: WStep, fail
                    "writes": if offers.len() <= 64 { J::Array(offers) } else { json!([]) },
                    "nwrites": w.log.len()})
         }
+    }
+}
+
+/// two async encodings IN FLIGHT on one thread: the first future is suspended by a not-ready sink after a partial
+/// write, a second packet is encoded to completion into another sink (another connection served by the same task),
+/// then the first is resumed.  Each sink must receive its own packet.
+pub fn enc_interleaved<F: Fam>(a: &F::Packet, b: &F::Packet) -> J {
+    let r = guarded(|| {
+        let mut wa = ScriptedWriter::new(vec![WStep::Accept(5), WStep::Pending, WStep::Accept(3), WStep::Pending], WStep::Accept(usize::MAX));
+        let mut wb = ScriptedWriter::new(vec![WStep::Accept(2), WStep::Pending], WStep::Accept(usize::MAX));
+        let waker = crate::io::noop_waker();
+        let mut cx = std::task::Context::from_waker(&waker);
+        let (ra, rb);
+        {
+            let mut fa = Box::pin(F::encode_async(a, &mut wa));
+            let mut first = None;
+            if let std::task::Poll::Ready(x) = fa.as_mut().poll(&mut cx) {
+                first = Some(x);
+            }
+            rb = drive(F::encode_async(b, &mut wb), MAX_POLLS).0;
+            ra = match first {
+                Some(x) => Some(x),
+                None => {
+                    let mut out = None;
+                    for _ in 0..MAX_POLLS {
+                        if let std::task::Poll::Ready(x) = fa.as_mut().poll(&mut cx) {
+                            out = Some(x);
+                            break;
+                        }
+                    }
+                    out
+                }
+            };
+        }
+        (ra, rb, wa.sink, wb.sink)
+    });
+    let res = |o: Option<Result<(), F::Error>>| match o {
+        None => json!({"k": "spin"}),
+        Some(Ok(())) => json!({"k": "ok"}),
+        Some(Err(e)) => F::err_json(&e),
+    };
+    match r {
+        Err(m) => json!({"a": {"res": jpanic(&m), "sink": []}, "b": {"res": jpanic(&m), "sink": []}}),
+        Ok((ra, rb, sa, sb)) => json!({"a": {"res": res(ra), "sink": jbytes(&sa)}, "b": {"res": res(rb), "sink": jbytes(&sb)}}),
     }
 }
 
